@@ -55,14 +55,19 @@ CLAIMS["C05"] = (
     "user world; the property is a corollary on the reference loop (first failing step, lowest-numbered failing branch, value unchanged). "
     "Tie: K1 (generator tokens) + K2 (real try macros compiled and run on every failure placement over small profiles and on random "
     "programs, compared with the reference semantics and with the semantics of the model's generated code).",
-    NOTE_COMMON + "Async try variants: result set over completion orders is covered by K2 only until the async model lands.",
+    NOTE_COMMON + "Async try variants: async_try_refines (AsyncTry.lean) proves the generated code equal to the async-try reference under the "
+    "canonical schedule, and specLoopAT_failed that a failing run ends with the failing chain's end, value unchanged; which failing branch "
+    "wins under other completion orders is schedule dependent and observed by K2-async (any failing branch of the earliest failing step).",
     "Lean 4 refinement proof + K2 compiled-execution differential", "§7 C05")
 REFINE = ("Central theorem sync_refines (lean/JoinModel/Refinement.lean): for every parsed program (any branches, depth profile, operators, "
           "captures, names, handler), every user world and calling thread, the semantics of the code the generator model emits equals the "
-          "reference step loop — events and result, panics included — for the sequential and thread-spawning macros. ")
+          "reference step loop — events and result, panics included — for the sequential and thread-spawning macros, and under the canonical "
+          "schedule for join_async!/join_async_spawn!; async_try_refines (AsyncTry.lean) is the same statement for the async try macros against "
+          "their own reference loop (a step stops at its first failing chain). ")
 K2NOTE = ("K2 compiles instrumented programs with the real macros and compares value, event order, thread names with the reference semantics "
           "(and with the semantics of the model's generated code); K1 compares the generator model with the real generator token for token. ")
-ASYNC_NOTE = "Async and task-spawning variants: the async semantic model is not part of this theorem; they are covered by K1 (tokens) and K2 where noted. "
+ASYNC_NOTE = ("Async variants: the refinement theorems speak about the canonical schedule (operands polled to completion in turn); other schedules "
+              "are covered by the poll-level model of Props/C09 (non-try) and observed by K2-async. ")
 CLAIMS["C03"] = (REFINE + "Property theorems (Props/C03): on the calling thread the events are sorted by (step, captures before chains) for every "
                  "program; a chain's input is its own branch's previous result. Interleavings of branch threads: Props/C08 (Lin). " + K2NOTE,
                  NOTE_COMMON + ASYNC_NOTE, "Lean 4 refinement proof + order theorems on the reference loop; K2 barrier oracle on real executions", "§7 C03")
@@ -71,7 +76,8 @@ CLAIMS["C04"] = (REFINE + "Props/C04: element i of a non-try result is what bran
                  NOTE_COMMON + ASYNC_NOTE + "For try macros the payload version is covered through C05 + K2.",
                  "Lean 4 refinement proof + position theorem on the reference loop; K2 on enumerated depth profiles", "§7 C04")
 CLAIMS["C06"] = (REFINE + "Props/C06: after a failing step j no event of a later step exists, every branch active in j ran its chain to the end, "
-                 "and no handler call happens. " + K2NOTE, NOTE_COMMON + ASYNC_NOTE,
+                 "and no handler call happens; for the async try macros (async_try_stops_at_failure) the failing chain's end is the last event "
+                 "of the loop. " + K2NOTE, NOTE_COMMON + ASYNC_NOTE,
                  "Lean 4 refinement proof + trace theorems; K2 event-log differential", "§7 C06")
 CLAIMS["C11"] = (REFINE + "Props/C11: the hoisting operator set equals the documented one (table theorem over regenerated T9); capture events are "
                  "exactly (active branch, position, operand) in order, once each; sorted before the chains of their step and after the previous "
